@@ -4,13 +4,13 @@
 cd /verif
 for pair in "$@"; do
   m=${pair%%:*}; p=${pair##*:}
-  git -C /repo apply seeded/$m/patch.diff || { echo "$m: patch does not apply"; continue; }
+  git -C /repo apply /verif/seeded/$m/patch.diff || { echo "$m: patch does not apply"; continue; }
   out=$(./check $p quick 2>/dev/null | grep '^VIOLATION' | head -3)
   n=$(echo "$out" | grep -c VIOLATION)
   f=$(echo "$out" | head -1 | sed 's/.*replay=//')
   r1=-; r0=-
   if [ -n "$f" ] && [ -f "$f" ]; then ./check --replay "$f" >/dev/null 2>&1; r1=$?; fi
-  git -C /repo apply -R seeded/$m/patch.diff
+  git -C /repo apply -R /verif/seeded/$m/patch.diff
   if [ -n "$f" ] && [ -f "$f" ]; then fam=$(python3 -c "import json;print(json.load(open('$f'))['family'])"); ./check --replay "$f" >/dev/null 2>&1; r0=$?; fi
   echo "$m on $p: $n+ violations, family=$fam, replay on changed tree rc=$r1 (want 1), on restored tree rc=$r0 (want 0)"
 done
